@@ -191,6 +191,21 @@ def _work_inner(job):
     env = load_env()
     bounds = Bounds(**job["bounds"])
     out = {"results": [], "errors": []}
+    if job.get("tight"):
+        # boundary grid of parallel programs (vlib/tight.py): whatever the backend compiles is model-checked
+        from .tight import par_family
+
+        lo, hi = job["tight"]
+        fam = par_family()[lo:hi]
+        mod = build_module(f"c09_tight_{lo}", fam)
+        out["tight_rejected_by_frontend"] = len(mod.REJ)
+        for nm, q in mod.PROCS.items():
+            try:
+                r = check_par_program("tight:" + nm, q, bounds)
+            except Exception as ex:
+                r = {"name": nm, "status": "harness_error", "why": f"{type(ex).__name__}: {ex}", "violations": [], "tb": traceback.format_exc()[-800:]}
+            out["results"].append(r)
+        return out
     rng = random.Random(f"c09-{job['rngseed']}-{job['seeds'][0]}")
     fns = seed_functions()
     for name in job["seeds"]:
@@ -228,6 +243,10 @@ def run(tier):
         bounds = dict(size_max=4, idx_max=5, stmt_budget=2500)
         mut_limit = 12
     jobs = [dict(seeds=names[b : b + 2], bounds=bounds, rngseed=vseed, tier=tier, mut_limit=mut_limit) for b in range(0, len(names), 2)]
+    from .tight import par_family
+
+    n_tight = len(par_family())
+    jobs += [dict(seeds=[], bounds=bounds, rngseed=vseed, tier=tier, mut_limit=0, tight=(lo, min(n_tight, lo + 12))) for lo in range(0, n_tight, 12)]
     with mp.get_context("fork").Pool(ncpu(), maxtasksperchild=4) as pool:
         outs = pool.map(_work, jobs, chunksize=1)
     rep = Reporter("C09")
